@@ -106,6 +106,9 @@ class RequestPath(object):
         if root in REQUEST_LOCAL_NAMES:
             return 'request-local', 'role of %s' % root
         if root in params:
+            why = self.param_role(fi, root)
+            if why:
+                return 'request-local', why
             return 'shared', 'parameter %s has no per-request role' % root
         # a local that only ever holds values produced by calls in this activation (or the exception being handled)
         if self._activation_local(fi, root, params):
@@ -115,6 +118,54 @@ class RequestPath(object):
             return 'shared', 'module-level object %s' % root
         # local of unknown provenance (e.g. alias of a parameter)
         return 'shared', 'local %s of unknown provenance' % root
+
+    def param_role(self, fi, name, depth=0):
+        """A parameter without a role of its own takes the role of what is passed for it: when *every* call of the
+        function the call graph knows hands over an object that is fresh or request-local in the caller (and the function
+        is never passed around as a value, so there are no calls the graph cannot see), stores through the parameter
+        stay inside the request.  -> reason text, or None."""
+        from ..astutil import argn
+        if depth > 3 or name in ('self', 'cls'):
+            return None
+        a = fi.node.args
+        if (a.vararg and a.vararg.arg == name) or (a.kwarg and a.kwarg.arg == name):
+            return None
+        edges = self.cg.callers(fi)
+        if not edges or any(e.kind not in ('call', 'self', 'classattr') for e in edges):
+            return None          # no known call, or reached by reference / by-name dispatch: cannot enumerate the callers
+        if any(fi is f for f, _ in self.dynamic_roots):
+            return None
+        pos = [x.arg for x in a.posonlyargs + a.args]
+        static = any(isinstance(d, ast.Name) and d.id == 'staticmethod' for d in fi.node.decorator_list)
+        callers = []
+        for e in edges:
+            call = e.node
+            if not isinstance(call, ast.Call) or any(isinstance(x, ast.Starred) for x in call.args) or any(k.arg is None for k in call.keywords):
+                return None
+            idx = pos.index(name) if name in pos else None
+            if idx is not None and fi.cls is not None and not static and isinstance(call.func, ast.Attribute):
+                idx -= 1         # bound call: self is implicit
+            arg = argn(call, name, idx if idx is None or idx >= 0 else None)
+            if not isinstance(arg, ast.Name):
+                return None
+            caller = e.caller
+            if not hasattr(caller, 'params') or isinstance(caller.node, ast.Lambda):
+                return None
+            fresh = effects.fresh_locals(self.repo, caller)
+            cparams = set(caller.params())
+            if arg.id in fresh:
+                pass
+            elif arg.id in self.shared_aliases(caller):
+                return None
+            elif arg.id in REQUEST_LOCAL_NAMES:
+                pass
+            elif arg.id in cparams:
+                if not self.param_role(caller, arg.id, depth + 1):
+                    return None
+            elif not self._activation_local(caller, arg.id, cparams):
+                return None
+            callers.append(caller.qualname)
+        return 'parameter %s: every caller (%s) passes an object of its own request' % (name, ', '.join(sorted(set(callers))))
 
     def _activation_local(self, fi, name, params, depth=0):
         """every assignment of the local is a call result, the exception being handled, or another such local"""
